@@ -313,3 +313,43 @@ Fixpoint scan_number (s : string) : string * string :=
   end.
 Fixpoint all_chars (p : ascii -> bool) (s : string) : bool :=
   match s with EmptyString => true | String a r => p a && all_chars p r end.
+
+(* ================= glue between parser and render =================
+   (1) NewEntityFormatter (proxy/formatter.go:41-46): the allow list is used only when
+   len(AllowList) > 0; an explicitly empty list ("allow": [], a zero-length non-nil slice) is the
+   same as no list.  Lists here are Coq lists: [] stands for both.
+   (2) a response-modifier plugin that hands back what it got (observer / audit / metrics), named
+   in the endpoint's or the backend's extra_config: executeResponseModifiers (proxy/plugin.go:164-200)
+   copies Data, IsComplete, Io, headers and status code into a wrapper and back - every field. *)
+Inductive plug := PNone | PEndpoint | PBackend | PBoth.
+Record extra := { x_plugin : plug; x_empty_lists : bool }.
+
+Definition allow_top (al : list string) (m : obj) : obj := filter (fun kv => str_mem (fst kv) al) m.
+Definition format_full (allow deny : list string) (mp : list (string * string)) (group : string) (d : pdata) : pdata :=
+  if Nat.ltb 0 (List.length allow)
+  then match d with
+       | DMap m => if Nat.ltb 0 (List.length m) then DMap (apply_mapping mp (allow_top allow m)) else d
+       | DNil => DNil end
+  else format_with deny mp group d.
+
+(* what travels through the stack *)
+Record mresp := { m_data : pdata; m_complete : bool; m_status : Z; m_headers : list header }.
+(* responseWrapper built from the response, then the response rebuilt from the wrapper *)
+Definition wrap_unwrap (r : mresp) : mresp :=
+  {| m_data := m_data r; m_complete := m_complete r; m_status := m_status r; m_headers := m_headers r |}.
+Definition plugin_layers (p : plug) : nat :=
+  match p with PNone => 0 | PEndpoint => 1 | PBackend => 1 | PBoth => 2 end.
+Definition through_plugins (p : plug) (r : mresp) : mresp := Nat.iter (plugin_layers p) wrap_unwrap r.
+
+Definition client_body_x (r : router) (e : benc) (coll : bool) (o : oenc) (cc : nat) (x : extra) (b : bbody) : cobs :=
+  match decode e coll b with
+  | None => {| c_status := 500; c_body := BRaw "" |}
+  | Some d =>
+      let d1 := format_full [] [] [] "" d in      (* explicit empty lists or none: the same [] *)
+      let r1 := through_plugins (x_plugin x) {| m_data := d1; m_complete := true; m_status := 0; m_headers := [] |} in
+      {| c_status := 200; c_body := render r o (m_data r1) |}
+  end.
+
+Definition noop_client_x (r : router) (cc : nat) (x : extra) (st : Z) (hs : list header) (body : list chunk) : nobs :=
+  let r1 := through_plugins (x_plugin x) {| m_data := DMap []; m_complete := true; m_status := st; m_headers := hs |} in
+  noop_client r cc (m_status r1) (m_headers r1) body.
